@@ -531,6 +531,83 @@ def sim_process(fn):
             f"Definition loop_guard (max_loop_iterations : Z) (current_step : time) : bool := existsb (fun t => {guard}) (tl current_step).\n")
 
 
+def tt_expr(e):
+    """the constructor expressions used when a SimRunner is made and when a step is queued from outside the scheduler"""
+    import re
+    t = ast.unparse(e)
+    m = re.fullmatch(r'TieredTime\(\*\[0\] \* depth\)', t)
+    if m: return '(repeat 0 depth)'
+    m = re.fullmatch(r'TieredTime\((-?\d+), \*\[0\] \* \(depth - 1\)\)', t)
+    if m: return f'(({m.group(1)}) :: repeat 0 (depth - 1))'
+    m = re.fullmatch(r'TieredInterval\(\*\[0\] \* depth, cutoff=(\d+), pre_length=(\d+)\)', t)
+    if m: return f'(mkI {m.group(2)} {m.group(1)} (repeat 0 depth))'
+    m = re.fullmatch(r'TieredTime\((\w+)\) \+ sim\.from_world_time', t)
+    if m: return f"(act [{'time_' if m.group(1) == 'time' else m.group(1)}] from_world_time)"        # (`time` is a type name in the model)
+    bail(e, 'time expression ' + t)
+
+
+def runner_setup(sm_tree, sc_tree):
+    """SimRunner.__init__ (the four time fields), World.set_initial_event, MosaikRemote.set_event"""
+    def cls(tree, name):
+        c = [n for n in tree.body if isinstance(n, ast.ClassDef) and n.name == name]
+        if len(c) != 1: raise Unsupported(f'class {name} not found')
+        return c[0]
+    def method(c, name):
+        f = [n for n in c.body if isinstance(n, (ast.FunctionDef, ast.AsyncFunctionDef)) and n.name == name]
+        if len(f) != 1: raise Unsupported(f'{c.name}.{name} not found')
+        return f[0]
+    init = method(cls(sm_tree, 'SimRunner'), '__init__')
+    found = {}
+    for st in init.body:
+        if isinstance(st, ast.Assign) and len(st.targets) == 1 and isinstance(st.targets[0], ast.Attribute) and is_name(st.targets[0].value, 'self'):
+            a = st.targets[0].attr
+            if a in ('last_step', 'from_world_time'):
+                if a in found: bail(st, a + ' assigned twice')
+                found[a] = tt_expr(st.value)
+            elif a == 'progress':
+                if a in found: bail(st, 'progress assigned twice')
+                if not (isinstance(st.value, ast.Call) and is_name(st.value.func, 'Progress') and len(st.value.args) == 1): bail(st, 'progress')
+                found[a] = tt_expr(st.value.args[0])
+            elif a == 'next_steps': bail(st, 'next_steps assigned outside the type test')
+        elif isinstance(st, ast.If) and any(isinstance(x, ast.Assign) and ast.unparse(x.targets[0]) == 'self.next_steps' for x in ast.walk(st)):
+            if 'next_steps' in found: bail(st, 'next_steps assigned twice')
+            if ast.unparse(st.test) != "self.type != 'event-based'" or len(st.body) != 1 or len(st.orelse) != 1: bail(st, 'initial queue')
+            b, o = st.body[0], st.orelse[0]
+            if not (isinstance(b.value, ast.List) and len(b.value.elts) == 1 and ast.unparse(o) == 'self.next_steps = []'): bail(st, 'initial queue')
+            found['next_steps'] = f"if negb event_based then [{tt_expr(b.value.elts[0])}] else []"
+    for a in ('last_step', 'from_world_time', 'progress', 'next_steps'):
+        if a not in found: bail(init, a + ' not found in SimRunner.__init__')
+    # any later assignment to these fields inside the class (outside the scheduler's own statements) would escape the model
+    sie = method(cls(sc_tree, 'World'), 'set_initial_event')
+    if [a.arg for a in sie.args.args] != ['self', 'sid', 'time']: bail(sie, 'signature')
+    body = strip_doc(sie.body)
+    if len(body) != 2 or ast.unparse(body[0]) != 'sim = self.sims[sid]': bail(sie, 'set_initial_event body')
+    st = body[1]
+    if not (isinstance(st, ast.Assign) and ast.unparse(st.targets[0]) == 'sim.next_steps' and isinstance(st.value, ast.List) and len(st.value.elts) == 1): bail(st, 'set_initial_event')
+    sie_term = f"[{tt_expr(st.value.elts[0])}]"
+    se = method(cls(sm_tree, 'MosaikRemote'), 'set_event')
+    if [a.arg for a in se.args.args] != ['self', 'event_time']: bail(se, 'signature')
+    body = strip_doc(se.body)
+    if len(body) != 3 or ast.unparse(body[0]) != 'sim = self.world.sims[self.sid]': bail(se, 'set_event body')
+    g, d = body[1], body[2]
+    if not (isinstance(g, ast.If) and ast.unparse(g.test) == 'not self.world.rt_factor' and not g.orelse and len(g.body) == 1 and is_raise_simerror(g.body[0])): bail(g, 'real-time test')
+    if not (isinstance(d, ast.If) and ast.unparse(d.test) == 'event_time < self.world.until' and len(d.body) == 1 and len(d.orelse) == 1): bail(d, 'event time test')
+    call = d.body[0]
+    if not (isinstance(call, ast.Expr) and isinstance(call.value, ast.Call) and ast.unparse(call.value.func) == 'sim.schedule_step' and len(call.value.args) == 1): bail(call, 'schedule_step call')
+    w = d.orelse[0]
+    if not (isinstance(w, ast.Expr) and isinstance(w.value, ast.Call) and ast.unparse(w.value.func) == 'logger.warning'): bail(w, 'warning')
+    return ("(* SimRunner.__init__: the time fields of a new runner *)\n"
+            f"Definition runner_last_step (depth : nat) : time := {found['last_step']}.\n"
+            f"Definition runner_progress (depth : nat) : time := {found['progress']}.\n"
+            f"Definition runner_from_world_time (depth : nat) : interval := {found['from_world_time']}.\n"
+            f"Definition runner_next_steps (event_based : bool) (depth : nat) : list time := {found['next_steps']}.\n"
+            "(* World.set_initial_event: the new queue *)\n"
+            f"Definition set_initial_event (from_world_time : interval) (next_steps : list time) (time_ : Z) : list time := {sie_term}.\n"
+            "(* MosaikRemote.set_event: None = SimulationError, Some None = ignored with a warning, Some (Some t) = sim.schedule_step(t) *)\n"
+            "Definition remote_set_event (rt_on : bool) (event_time until : Z) (from_world_time : interval) : option (option time) :=\n"
+            f"  if negb rt_on then None else if event_time <? until then Some (Some {tt_expr(call.value.args[0])}) else Some None.\n")
+
+
 def main():
     repo, outdir = sys.argv[1], sys.argv[2]
     tree = ast.parse(open(os.path.join(repo, 'mosaik', 'scheduler.py')).read())
@@ -542,7 +619,8 @@ def main():
            "From Coq Require Import ZArith List Bool Arith.", "Import ListNotations.", "From MV Require Import Time.Spec Sched.Timing Sched.GenView.", "Open Scope Z_scope.", "",
            get_max_advance(fns['get_max_advance']), advance_progress(fns['advance_progress']), progress_class(ptree), wait_for_dependencies(fns['wait_for_dependencies']),
            schedule_step(ast.parse(open(os.path.join(repo, 'mosaik', 'simmanager.py')).read())),
-           step_reply(fns['step']), output_time_rule(fns['get_outputs']), sim_process(fns['sim_process'])]
+           step_reply(fns['step']), output_time_rule(fns['get_outputs']), sim_process(fns['sim_process']),
+           runner_setup(ast.parse(open(os.path.join(repo, 'mosaik', 'simmanager.py')).read()), ast.parse(open(os.path.join(repo, 'mosaik', 'scenario.py')).read()))]
     text = '\n'.join(out)
     path = os.path.join(outdir, 'SchedulerFns.v')
     if not os.path.exists(path) or open(path).read() != text:
